@@ -95,7 +95,7 @@ class InversionImagingWTilde(AbstractInversionImaging):
         """
 
         if self.preloads.data_vector_mapper is not None:
-            return self.preloads.data_vector_mapper
+            return copy.copy(self.preloads.data_vector_mapper)
 
         if not self.has(cls=AbstractMapper):
             return None
@@ -293,7 +293,7 @@ class InversionImagingWTilde(AbstractInversionImaging):
         """
 
         if self.preloads.curvature_matrix_mapper_diag is not None:
-            return self.preloads.curvature_matrix_mapper_diag
+            return copy.copy(self.preloads.curvature_matrix_mapper_diag)
 
         if not self.has(cls=AbstractMapper):
             return None
